@@ -180,6 +180,11 @@ func (q *Query) SetEnd(end time.Time) {
 	if q.Range == nil {
 		q.Range = NewDateRange()
 	}
+	// callers say "no upper bound" with time.Unix(math.MaxInt64, 0); beyond MaxTime the seconds wrap around
+	// inside time.Time and the value compares before every stored row: MaxTime is the latest usable bound
+	if end.Unix() > maxSec {
+		end = MaxTime
+	}
 	q.Range.End = end
 }
 
@@ -314,11 +319,8 @@ func (q *Query) Parse() (pr *ParseResult, err error) {
 			time.January,
 			1, 0, 0, 0, 0,
 			utils.InstanceConfig.Timezone)
-		pr.Range.End = time.Date(
-			pr.Range.End.Year(),
-			time.December,
-			31, 23, 59, 59, 999999999,
-			utils.InstanceConfig.Timezone)
+		// pr.Range.End is MaxTime here: the end of its year is past the latest instant time.Time can
+		// represent (time.Date would wrap around to a time before every stored row), so it stays
 	}
 	pr.TimeQuals = q.TimeQuals
 	return pr, nil
